@@ -8,3 +8,4 @@ import Aergo.Props.C10
 #print axioms Aergo.Props.C10.update_idempotent
 #print axioms Aergo.Props.C10.content_determines_tree
 #print axioms Aergo.Props.C10.addShortcut_is_sorted_insert
+#print axioms Aergo.Props.C10.batch_store_roundtrip
